@@ -138,12 +138,71 @@ def w_sequence(ctx, rng, idx):
 
 
 def w_large(ctx, rng, idx):
-    """registers far beyond a dense state vector (up to 72 qubits, often more than 53 measured sites - the mantissa of a double):
-    product states, GHZ-type states and random right-orthonormal states of rank 2; decided by the transfer-matrix oracle"""
+    """registers far beyond a dense state vector (up to 72 qubits, often more than 53 measured sites - the mantissa of a double - and,
+    for two kinds, more than 64 and 560-700 measured sites): product states, GHZ-type states, random right-orthonormal states of rank 2,
+    entangled qubits separated by long basis-state stretches, long chains of crossing entangled pairs; decided by the transfer-matrix oracle"""
     n = int(rng.integers(20, 73))
-    kind = idx % 4
+    kind = idx % 6
+    n0 = 0
     with probe.oracle():
-        if kind == 3:
+        if kind == 4:
+            # a few entangled qubits, a stretch of 64-80 qubits in (nearly) basis states, then qubits entangled with the FIRST ones:
+            # samples that differ in their leading outcomes agree on the next 64+ outcomes, and the last outcomes depend on the first
+            h, t_, n0 = int(rng.integers(1, 3)), int(rng.integers(1, 4)), int(rng.integers(64, 81))
+            base = gen.right_orthonormal_cores(gen.rand_cores(rng, [2] * (h + t_), [1] * (h + t_), [min(r, 4) for r in gen.max_ranks([2] * (h + t_), [1] * (h + t_))], True))
+            r = base[h].shape[0]
+            eps = 0.0 if rng.random() < 0.6 else float(10 ** rng.uniform(-3, -1))
+            mid = []
+            for _ in range(n0):
+                v = np.array([np.cos(eps), np.sin(eps) * np.exp(1j * rng.uniform(0, 6.28))], dtype=complex)
+                if rng.random() < 0.5:
+                    v = v[::-1].copy()
+                mid.append(np.einsum('ab,s->asb', np.eye(r), v).reshape(r, 2, 1, r))
+            psi = tt.TT(list(base[:h]) + mid + list(base[h:]))
+            n = h + n0 + t_
+        elif kind == 5:
+            # 560-700 qubits, nearly one bit of entropy each: a product of entangled PAIRS on non-neighbouring qubits (2j-1, 2j+2), so that
+            # every bond is crossed by one or two pairs (ranks 2-4) and outcomes are correlated across every bond; the joint probability
+            # of a sampled prefix falls below 1e-150 after about 500 qubits
+            n = 2 * int(rng.integers(280, 351))
+            first = [0] + list(range(1, n - 2, 2))
+            second = [2] + list(range(4, n, 2)) + [n - 1]
+            second = second[:len(first)]
+            partner = {}
+            for a_, b_ in zip(first, second):
+                partner[a_], partner[b_] = ('open', b_), ('close', a_)
+            amp = {}
+            for a_ in first:
+                pa, c1, c2 = rng.uniform(0.4, 0.6), rng.uniform(0.6, 0.85), rng.uniform(0.6, 0.85)
+                Pm = np.array([[pa * c1, pa * (1 - c1)], [(1 - pa) * (1 - c2), (1 - pa) * c2]])
+                amp[a_] = np.sqrt(Pm) * np.exp(1j * rng.uniform(0, 6.28, size=(2, 2)))
+            open_pairs, cores = [], []
+            for i in range(n):
+                rl = 2 ** len(open_pairs)
+                if partner[i][0] == 'open':
+                    new_open = open_pairs + [i]
+                    cr = np.zeros((rl, 2, 1, 2 * rl), dtype=complex)
+                    for a_ in range(rl):
+                        for s_ in (0, 1):
+                            cr[a_, s_, 0, 2 * a_ + s_] = 1.0
+                else:
+                    j = open_pairs.index(partner[i][1])
+                    new_open = open_pairs[:j] + open_pairs[j + 1:]
+                    cr = np.zeros((rl, 2, 1, rl // 2), dtype=complex)
+                    L_ = len(open_pairs)
+                    for a_ in range(rl):
+                        bits = [(a_ >> (L_ - 1 - q)) & 1 for q in range(L_)]
+                        v_ = bits[j]
+                        rest = bits[:j] + bits[j + 1:]
+                        b_ = 0
+                        for q in rest:
+                            b_ = 2 * b_ + q
+                        for s_ in (0, 1):
+                            cr[a_, s_, 0, b_] = amp[partner[i][1]][v_, s_]
+                cores.append(cr)
+                open_pairs = new_open
+            psi = tt.TT(gen.right_orthonormal_cores(cores))
+        elif kind == 3:
             # a long register in a basis state (no entropy) followed by a few entangled qubits: all sampled strings agree on the
             # leading 54-66 bits and differ only in the tail
             n0, n1 = int(rng.integers(54, 67)), int(rng.integers(3, 7))
@@ -178,10 +237,16 @@ def w_large(ctx, rng, idx):
     k = n if rng.random() < 0.5 else int(rng.integers(max(1, n - 10), n + 1))
     sub = sorted(int(i) for i in rng.choice(n, size=k, replace=False))
     N = [1, 20, 200][int(rng.integers(0, 3))]
+    if kind == 4:
+        sub, N = list(range(n)) if rng.random() < 0.7 else sorted(set(range(n)) - {int(rng.integers(2, n - 3))}), [50, 200, 1000][int(rng.integers(0, 3))]
+        k = len(sub)
+    if kind == 5:
+        sub, N = list(range(n)) if rng.random() < 0.7 else sorted(set(range(n)) - set(int(i) for i in rng.choice(n, size=5, replace=False))), [10, 40][int(rng.integers(0, 2))]
+        k = len(sub)
     if kind == 3:
         sub, k, N = list(range(n)) if rng.random() < 0.6 else sorted(set(range(n)) - {int(rng.integers(0, n0))}), n, [50, 200, 1000][int(rng.integers(0, 3))]
         k = len(sub)
-    ctx.describe({'op': 'sampling large register', 'qubits': n, 'measured': k, 'kind': ['product', 'ghz', 'random_rank2', 'basis_prefix_entangled_tail'][kind], 'samples': N})
+    ctx.describe({'op': 'sampling large register', 'qubits': n, 'measured': k, 'kind': ['product', 'ghz', 'random_rank2', 'basis_prefix_entangled_tail', 'entangled_head_and_tail_around_basis_stretch', 'long_chain_of_crossing_pairs'][kind], 'samples': N})
     call('quantum_computation.sampling', qc.sampling, psi, sub, N, prop=P, tags=['large_register'])
 
 
@@ -202,7 +267,7 @@ WORKLOADS = [
     Workload('random', w_random, 160, 3000),
     Workload('special', w_special, 60, 1200),
     Workload('sequence', w_sequence, 80, 1500),
-    Workload('large', w_large, 20, 300),
+    Workload('large', w_large, 24, 300),
     Workload('huge_environment', w_huge_environment, 0, 1),
 ]
 REQUIRED = ['C20|quantum_computation.sampling:equals_inverse_cdf_sampling_of_born_marginal', 'C20|quantum_computation.sampling:frequencies_sum_to_one',
